@@ -22,6 +22,8 @@ CLAIMS = {
          "partial: short-read readers and BytesCursor are identified with (content, known?) by assumption; the zero-copy Bytes path is covered by the oracle only."),
  "C09": ("§4 C09", "Theorem (induction over the type universe, compositional over decoder programs): for every well-formed type whose containers store elements occupying at least one input byte, every byte string - including counts claiming 2^32-1 elements - with known or unknown remaining length, the heap reservations the decode makes (reserve_exact of each vector chunk, Box layouts, list/tree nodes) total at most rate(t) * (input length) + allowance(t), both functions of the type only; each chunk reservation is within the 16 KiB window; with a known length the bulk path reserves nothing unless the bytes are there. The hypothesis is necessary: C09_zero_wire_refuted exhibits the known finding F4. Tie: on every case the measured peak of live heap bytes of the real decode (counting global allocator; slice, unknown-length and shared-buffer inputs; hostile family = maximal counts in front of 0 / about one chunk / more than one chunk of valid payload) must be within twice the model's reservations for that input, the announced sizes must equal the model's exactly, and an implementation-side bound rate*len+allowance is checked.",
          "partial: allocator behaviour is runtime - the theorem is about requested sizes in the model, tied to measured peaks by the correspondence (factor 2 + 4 KiB slack: both buffers live during realloc; std's B-tree nodes are charged one node per element in the model). Known finding F4 (zero-wire element types) is reported as KNOWN-FINDING and re-confirmed on every run with capped counts."),
+ "C10": ("§4 C10", "Theorem over a resource-ledger model of the decoders' ownership protocol (in-place array decoding with its drop guard, growing vectors dropped on the error path, Box allocate / decode in place / free on failure, fields already built dropped when a later field fails), for EVERY shape - any N, any nesting depth - and EVERY failure position (error or panic), by induction with a per-decode invariant: every element is constructed at most once and dropped exactly as often as constructed, every heap block allocated at most once and freed exactly as often; successful values own exactly what was built and release it when dropped. Oracle on the implementation: scripted element types (4-byte and zero-sized, with destructors logging into a ledger) through ~45 container shapes x every failure position x {input exhausted, malformed element, limit error from on_before_alloc_mem, panic}: each constructed element dropped exactly once, live heap bytes back to baseline; counts compared with the model. The transparent multi-field in-place path is refuted in the model and reported as known finding F6.",
+         "partial: use-after-free / reads of uninitialised memory inside the unsafe blocks that leave the ledger balanced are runtime behaviours the model cannot exhibit (Miri would be supporting evidence; not run by the check). The ledger model is tied to the code by the observed construct/drop counts, not by a translation of the unsafe code."),
  "C11": ("§4 C11", "Theorems for every decoder program (hence every type), input and limit: the depth-limited decode returns the unlimited result iff the descend/ascend nesting of its trace is at most L and an error otherwise (exact), transparent, error-preserving, monotone in L. The model's traces are tied to the crate by running decode_with_depth_limit for every L in 0..=depth+2 on the registry types.",
          "partial: that the trace nesting equals the container nesting depth of the decoded value is checked on the implementation (oracle against an independent depth function) rather than proved; native stack usage is a runtime behaviour the model cannot exhibit (the theorem bounds the recursion nesting by L)."),
  "C12": ("§4 C12", "Theorems for every decoder program, input and limit: with U the saturating sum of announced sizes, L > U is transparent and (if anything was announced, in particular if U > 0) L <= U fails; used_mem() with an unlimited budget is U; the B-tree estimate covers at least half of the entries. The announced sizes of the model are tied to the crate by running MemTrackingInput for every L in 0..=U+1 (U<=24; boundary limits otherwise).",
